@@ -146,6 +146,42 @@ func (m *machine) data(local int, compressed bool) {
 	m.s.Recs = append(m.s.Recs, r)
 }
 
+func chainedUndefined(rec *hx.Recorder) {
+	n := int64(0)
+	for local := 0; local < 16; local++ {
+		for _, compressed := range []bool{false, true} {
+			if compressed && local > 3 {
+				continue
+			}
+			first := &fitmodel.Stream{HeaderSize: 12, Proto: 0x20, Recs: []fitmodel.Rec{
+				{IsDef: true, Local: 15, Global: 0, Fields: []fitmodel.FieldDef{{Num: 0, Size: 1, Base: 0}}}, {Local: 15, Raw: []byte{4}},
+				{IsDef: true, Local: byte(local), Global: 20, Fields: []fitmodel.FieldDef{{Num: 3, Size: 1, Base: 2}}}, {Local: byte(local), Raw: []byte{100}},
+			}}
+			if local == 15 {
+				first.Recs[0].Local, first.Recs[1].Local = 14, 14
+			}
+			second := &fitmodel.Stream{HeaderSize: 12, Proto: 0x20, Recs: []fitmodel.Rec{
+				{IsDef: true, Local: first.Recs[0].Local, Global: 0, Fields: []fitmodel.FieldDef{{Num: 0, Size: 1, Base: 0}}}, {Local: first.Recs[0].Local, Raw: []byte{4}},
+				{Local: byte(local), Compressed: compressed, Raw: []byte{101}},
+			}}
+			chain := append(append([]byte{}, first.Bytes()...), second.Bytes()...)
+			n++
+			var fs []*fit.File
+			var err error
+			if p := oracle.Catch(func() { fs, err = fit.DecodeChained(bytes.NewReader(chain)) }); p != nil {
+				rec.Fail("chained-undefined", "", fmt.Sprintf("panic: %v", p), streamCase{FileType: 4, Stream: second, Text: second.String()})
+				continue
+			}
+			if err == nil {
+				rec.Fail("chained-undefined", "", fmt.Sprintf("DecodeChained accepted a second file whose record uses local type %d, which only the first file of the chain defined (%d files returned)", local, len(fs)),
+					streamCase{FileType: 4, Stream: second, Text: first.String() + " || " + second.String()})
+			}
+		}
+	}
+	rec.Eval("chained-undefined", n)
+	rec.NonTrivialEnum(n)
+}
+
 func TestC13(t *testing.T) {
 	hx.Main(t, "C13", func(rec *hx.Recorder) {
 		if rp, ok := hx.LoadReplay(); ok {
@@ -155,6 +191,10 @@ func TestC13(t *testing.T) {
 			}
 			c.Text = c.Stream.String()
 			rec.Eval("replay", 1)
+			if rp.Sub == "chained-undefined" {
+				chainedUndefined(rec)
+				return
+			}
 			if msg, ok := checkStream(rec, c); !ok {
 				rec.Fail(rp.Sub, "", msg, c)
 			}
@@ -185,6 +225,11 @@ func TestC13(t *testing.T) {
 			rec.Eval("undefined", n)
 			rec.NonTrivialEnum(n)
 
+		}
+
+		// a chain: definitions of one file must not serve the next one
+		if hx.FirstShard() {
+			chainedUndefined(rec)
 		}
 
 		hx.RapidCheck(t, rec, "machine", func(rt *rapid.T, fail func(string, string, any)) {
